@@ -126,6 +126,13 @@ structure Ent (K N T : Type) where
 structure Reg where
   onS : Bool
   onC : Bool
+  /-- the SHAPE of the constrained store: does a child store exist (registered on S with
+      `RegisterChildStoreStrategy`)?  `false` = S is a plain store — no parent, no child store
+      strategies —, the operations through C do not exist (`Op.viaChild`; histories of that shape
+      contain none) and no bucket ever has child data.  On buckets without child data `S.Update` and
+      `S.DeleteById` take the same path in both shapes (the loops over `childStoreStrategies` find
+      nothing to do), so the shape does not enter `step`; it delimits the histories. -/
+  childStore : Bool := true
   deriving DecidableEq, Repr
 
 structure St (K N T : Type) where
@@ -252,6 +259,16 @@ inductive Op (K N T : Type)
   | unlink (sid oid : K)
   | read (id : K)
   deriving Repr
+
+/-- the operation goes through the child store (exists only in the shape with a child store) -/
+def Op.viaChild {K N T : Type} : Op K N T → Bool
+  | .ccreate .. => true
+  | .cupdate .. => true
+  | .cdelete .. => true
+  | _ => false
+
+/-- the operation exists in the schema's shape -/
+def Op.fits {K N T : Type} (reg : Reg) (op : Op K N T) : Bool := reg.childStore || !op.viaChild
 
 section
 variable {K N T : Type} [DecidableEq K]
